@@ -48,6 +48,11 @@ Theorem C02_step : forall s ms o,
 Proof. exact step_Inv. Qed.
 Print Assumptions C02_step.
 
+(* no call raises on a well-formed operation *)
+Theorem C02_no_raise : forall s ms o, Inv s ms -> wf_op o -> step_raises s o = false.
+Proof. exact step_no_raise. Qed.
+Print Assumptions C02_no_raise.
+
 Theorem C02_reachable : forall ops, wf_ops ops -> Inv (fold_left step ops init) (votes_of ops).
 Proof. exact reachable. Qed.
 Print Assumptions C02_reachable.
